@@ -36,7 +36,8 @@ def extern_defs(hres):
     return out
 
 
-def assemble(hres, outdir, extra=""):
+def assemble(hres, outdir, extra="", mod_extra=None):
+    mod_extra = mod_extra or {}
     texts = texts_of(hres)
     ext = extern_defs(hres)
     tree = {}
@@ -54,7 +55,7 @@ def assemble(hres, outdir, extra=""):
         for p in mod:
             node = node[p]
         decl = "".join("pub mod %s;\n" % c for c in sorted(node))
-        body = body + "\n" + decl + "".join(ext.get(mod, []))
+        body = body + "\n" + decl + "".join(ext.get(mod, [])) + mod_extra.get(mod, "")
         # nested modules live in <mod>/<child>.rs, which is where rustc looks for them
         path = os.path.join(outdir, rel)
         os.makedirs(os.path.dirname(path), exist_ok=True)
@@ -80,6 +81,48 @@ def assemble(hres, outdir, extra=""):
 def typecheck(hres, workdir, name):
     d = os.path.join(workdir, "crate_" + name)
     lib = assemble(hres, d)
+    p = subprocess.run(["rustc", "--edition", "2021", "--crate-type", "lib", "--emit=metadata",
+                        "-o", os.path.join(d, "out.rmeta"), lib],
+                       stdout=subprocess.PIPE, stderr=subprocess.PIPE, text=True, timeout=120)
+    codes = sorted(set(re.findall(r"error\[(E\d+)\]", p.stderr)))
+    return p.returncode == 0, codes, p.stderr[-200000:]
+
+
+def layout_asserts(hres, exp):
+    """{module tuple: Rust text} -- compile-time assertions placed in the module that defines each item:
+    size_of / align_of of every defined item = the size / alignment pyxis resolved (registry dump), and
+    offset_of of every declared field = the offset the description declares (generator expectation)"""
+    out = {}
+    for it in sx.field(hres, "registry") or []:
+        if it[2] != "defined":
+            continue
+        path = [sx.qtext(x) for x in it[1][1:]]
+        size, align = int(it[4]), int(it[5])
+        if len(path) < 2:
+            continue
+        name = path[-1]
+        out.setdefault(tuple(path[:-1]), []).append(
+            'const _: () = { assert!(::core::mem::size_of::<%s>() == %d, "C02 size of %s resolved as %d"); '
+            'assert!(::core::mem::align_of::<%s>() == %d, "C02 alignment of %s resolved as %d"); };\n'
+            % (name, size, "::".join(path), size, name, align, "::".join(path), align))
+    for key, t in ((exp or {}).get("types") or {}).items():
+        path = key.split("::")
+        if len(path) < 2:
+            continue
+        for f in t.get("fields", []):
+            fname, off, zero = f[0], f[1], f[5]
+            if zero:
+                continue
+            out.setdefault(tuple(path[:-1]), []).append(
+                'const _: () = assert!(::core::mem::offset_of!(%s, %s) == %d, "C01 field %s.%s declared at %d");\n'
+                % (path[-1], fname, off, key, fname, off))
+    return {m: "".join(v) for m, v in out.items()}
+
+
+def layout_check(hres, exp, workdir, name):
+    """(ok, error codes, stderr): rustc on the emitted crate with the layout assertions appended"""
+    d = os.path.join(workdir, "crate_" + name)
+    lib = assemble(hres, d, mod_extra=layout_asserts(hres, exp))
     p = subprocess.run(["rustc", "--edition", "2021", "--crate-type", "lib", "--emit=metadata",
                         "-o", os.path.join(d, "out.rmeta"), lib],
                        stdout=subprocess.PIPE, stderr=subprocess.PIPE, text=True, timeout=120)
